@@ -24,11 +24,11 @@ type Gen struct {
 	pkgByName map[string]*types.Package
 	pkgByPath map[string]*types.Package
 
-	globalIDs     map[string]int
-	abstractCalls map[string]int
-	trustedUsed   map[string]bool
-	UnfoldDepth   int
-	funcByObj     map[*types.Func]*ssa.Function
+	globalIDs      map[string]int
+	abstractCalls  map[string]int
+	trustedUsed    map[string]bool
+	UnfoldDepth    int
+	funcByObj      map[*types.Func]*ssa.Function
 	initConstCache map[*ssa.Global][]*ssa.Store
 	specRec        map[string]bool
 }
@@ -309,6 +309,18 @@ func sortedValKeys(m map[string]Val) []string {
 	}
 	sort.Strings(ks)
 	return ks
+}
+
+// FullCoverQuery asks whether the path of a cover stays feasible under the background of all obligations.
+func FullCoverQuery(o *Obligation, all []*Obligation) string {
+	var terms []string
+	for _, x := range all {
+		terms = append(terms, x.Reach, x.Goal)
+	}
+	var b strings.Builder
+	b.WriteString(o.fc.sc.Slice(terms...))
+	fmt.Fprintf(&b, "(assert %s)\n(check-sat)\n", o.Reach)
+	return b.String()
 }
 
 // BatchQuery decides several obligations of the same function at once:
